@@ -8,8 +8,8 @@
                       every operation is all-or-nothing (clone, swap on success)
       [hrun_reach]    after EVERY history the tree is reachable in the sense of C03/ReachKeys.v
                       (hence of C02/Reach.v): the C03 lookup theorems of C03/ReachSpec.v apply
-      [hist_example]  non-vacuity: a tree that went through a prefix split and a deleteChild
-                      merge, a route with path_params on a wildcard
+    (the corollaries for C03's lookup and the non-vacuity example - a tree that went through prefix
+    splits and a deleteChild merge, routes with path_params on wildcards - are in C03/ReachTheorems.v)
 
     Which rules an update replaces is computed as the code does, from SameAs (same id, same rule
     set) and EqualTo (additionally the same hash); the equality classes of the hashes are data
